@@ -96,9 +96,23 @@ func genC16(r *Rng, tier string, idx int) *Plan {
 		par = append(par, op)
 	}
 	p.Ops = []Op{{ID: 100, Kind: "par", Par: par}}
-	if r.Chance(0.25) {
-		// the watched CA file is unreadable as PEM when the service first uses it and is repaired later
+	if r.Chance(0.2) {
+		// the watched CA file is unreadable as PEM when the service first uses it and is repaired while
+		// requests keep arriving (the watcher's callback then finds no pooled configuration to update)
 		p.Ops[0].S = "ca-initially-torn"
+		p.Spec.IdPs[0].Scheme = "https"
+		p.Spec.Filters[0].CAFile = "ca.pem"
+		p.Spec.Filters[0].CARefresh = "0.001s"
+		par := p.Ops[0].Par
+		par[0].Kind = "ca-rewrite"
+		for i := 1; i < len(par); i++ {
+			if par[i].Kind == "fresh" || par[i].Kind == "refresh" || par[i].Kind == "logout" {
+				par[i].Kind = "login"
+			}
+			par[i].F = 0
+		}
+		par = append(par, Op{ID: 90, Kind: "late-login", F: 0, B: 90, Path: "/late"})
+		p.Ops[0].Par = par
 	}
 	return p
 }
@@ -214,6 +228,14 @@ func runC16(p *Plan) *Result {
 		return &Result{Infra: "empty plan"}
 	}
 	tasks := p.Ops[0].Par
+	if p.Ops[0].S == "ca-initially-torn" {
+		// first use fails to load the CA (the watcher is running by then); the file is repaired during a quiet
+		// period, the watcher notices, and then requests arrive
+		_, _ = direct(w, 0, "/warm-up", "")
+		_ = os.WriteFile(caPath+".fix", []byte(pki.CAs[0].PEM), 0o600)
+		_ = os.Rename(caPath+".fix", caPath)
+		w.Advance(10*time.Millisecond + 300*time.Microsecond)
+	}
 	// ---- sequential set-up: sessions for the tasks that need one ----
 	cookies := make([]string, len(tasks))
 	needExpiry := false
@@ -258,8 +280,13 @@ func runC16(p *Plan) *Result {
 		op := &tasks[i]
 		t := w.Sim.NewTask(op.ID, op.Kind)
 		w.Sim.Go(t, func() {
-			defer func() { done <- i }()
 			o := &outs[i]
+			defer func() {
+				if r := recover(); r != nil {
+					o.panicked = r
+				}
+				done <- i
+			}()
 			o.kind = op.Kind
 			o.start = w.Sim.Tick()
 			f := w.Filters[op.F]
@@ -267,6 +294,11 @@ func runC16(p *Plan) *Result {
 			case "nocookie":
 				_, o.panicked = direct(w, op.F, op.Path, "")
 			case "login":
+				_, o.panicked = directLogin(w, op.F, op.B, op.Path)
+			case "late-login":
+				// arrives after the watcher had time to notice the repaired file
+				time.Sleep(8 * time.Millisecond)
+				w.Sim.SetCur(t)
 				_, o.panicked = directLogin(w, op.F, op.B, op.Path)
 			case "fresh", "refresh":
 				var r *envoy.CheckResponse
@@ -326,14 +358,21 @@ func runC16(p *Plan) *Result {
 	w.Sim.On = false
 	w.Sim.SetCur(main)
 	if simsync.Deadlocks > 0 {
-		w.violate("C16", "lock-not-acquired", "a lock of an instrumented file was not acquired within the step budget")
+		w.violate("C16", "lock-not-acquired", "a lock of an instrumented file was not acquired within the step budget (deadlock)")
+	}
+	for _, bp := range takeBgPanics() {
+		if strings.Contains(bp, "simsync") {
+			w.violate("C16", "lock-not-acquired", "background goroutine: "+bp)
+		} else {
+			w.violate("C16", "panic-in-background-goroutine", bp)
+		}
 	}
 	overl := map[string]bool{}
 	for i := range outs {
 		if outs[i].panicked != nil {
 			w.violate("C15", "panic-under-concurrency:"+outs[i].kind, fmt.Sprint(outs[i].panicked))
 			if strings.Contains(fmt.Sprint(outs[i].panicked), "simsync") {
-				w.violate("C16", "deadlock:"+outs[i].kind, fmt.Sprint(outs[i].panicked))
+				w.violate("C16", "lock-not-acquired", fmt.Sprintf("task %s: %v", outs[i].kind, outs[i].panicked))
 			}
 		}
 		for j := i + 1; j < len(outs); j++ {
